@@ -23,8 +23,10 @@ func init() {
 		Level: "other",
 		Explanation: "Relational abstract interpretation (linear constraints over integer SSA values, string/slice lengths and byte facts; Fourier-Motzkin entailment; callees inlined in the " +
 			"caller's abstract context) of every exported text-consuming entry point of netutil, hostsfile, urlutil, stringutil and timeutil with unconstrained arguments: every index, slice, " +
-			"make-length, unchecked type-assertion and explicit panic site reachable from them is a proof obligation that must be discharged for all argument values; every loop must have a " +
-			"variant. Decides panic-freedom of the golibs code itself for all inputs under the stated assumptions; library calls are summarised and assumed total.",
+			"make-length, slice-to-array conversion, integer division, dereference of a tracked nil pointer (e.g. the result of a failed call used before its error is tested), unchecked " +
+			"type-assertion and explicit panic site reachable from them is a proof obligation that must be discharged for all argument values; integer conversions and unsigned subtraction keep " +
+			"their value only when that is proved; every loop must have a variant; every library function called is in a reviewed list of total functions or has its precondition established " +
+			"(netip.Addr.As4 under Is4, Builder.Grow with n >= 0, Scanner.Buffer before Scan). Decides panic-freedom of the golibs code itself for all inputs under the stated assumptions.",
 		Technique: "abstract interpretation over go/ssa with a relational linear-constraint domain; per-site proof obligations; loop variants",
 		Note:      "Trusted: go/ssa, the abstract interpreter and its library summaries (/verif/sa/lincon), mathematical-integer model (lengths < 2^62). Assumes documented preconditions (non-nil pointer receivers / *url.URL arguments, valid AddrFamily).",
 		DesignRef: "DESIGN.md section 4, C01",
